@@ -186,7 +186,9 @@ def run(tier):
     chk = Check(PROP, tier)
     chk.model("MC_Vectors")
     chk.model("MC_SM4Struct", cfg="MC_SM4Struct.cfg" if tier == "quick" else "MC_SM4Struct_thorough.cfg")
-    chk.exec_and_validate("T_SM4", gen(chk, tier), keyfn, cost=cost)
+    cmds = gen(chk, tier)
+    chk.exec_and_validate("T_SM4", cmds, keyfn, cost=cost)
+    chk.first_use("T_SM4", cmds, keyfn, count=8)
     return chk.finish(
         "model_checking",
         "keys (standard, all-zero, all-FF, random) x blocks (standard, extremes, single-bit, random) through the "
